@@ -13,7 +13,7 @@ open Haiway.MiniPy
 structure W where
   completed : Bool                  -- `self._completed.done()`
   tyOf : Val → Nat                  -- `type(metric)`
-  mergeOut : Val ⊕ Val              -- what the user's merge function does: a value, or a raised exception
+  mergeBy : Val → Val → Val → Val ⊕ Val   -- what the user's merge function `f` does on `(a, b)`: a value, or a raised exception
   merged : List (Val × Val) := []   -- arguments the merge function was called with
   var : Option Val := none          -- the `MetricsContext` variable
   recordOut : Val ⊕ Val := .inl .none   -- what `.record(…)` of the scope in the variable does
@@ -27,7 +27,7 @@ def ext : World W := fun f args w fl =>
   match f, args with
   | 110, [_] => some (.inl (.bool w.completed), w)
   | 140, [x] => some (.inl (.cls (w.tyOf x)), w)
-  | 141, [_, a, b] => some (w.mergeOut, { w with merged := w.merged ++ [(a, b)] })
+  | 141, [f, a, b] => some (w.mergeBy f a b, { w with merged := w.merged ++ [(a, b)] })
   | 102, [] => (match w.var with
       | some v => some (.inl v, w)
       | none => some (.inr (.exc cLookupError 0), w))
@@ -60,7 +60,7 @@ truth value – is replaced by `merge(stored, new)` – called exactly once, wit
 merge function raises (the exception propagates as that object).  Nothing else in the dict changes. -/
 def RecordRefines (p : Stmt) : Prop :=
   ∀ (emb : Nat → Val) (s : Store) (v : Nat) (mergeFn : Val) (w : W), w.merged = [] →
-    (∀ e, w.mergeOut = .inr e → ∃ c n, e = .exc c n) →
+    (∀ f a b e, w.mergeBy f a b = .inr e → ∃ c n, e = .exc c n) →
     let ty := w.tyOf (emb v)
     let args : Nat → Val := fun i => if i = 0 then emb v else mergeFn
     let s0 : St W := { loc := args, fld := fun i => if i = 0 then dictOf emb s else .obj 77, world := w }
@@ -71,7 +71,7 @@ def RecordRefines (p : Stmt) : Prop :=
       | some cur =>
         (∀ n, emb n ≠ .none) →       -- stored values are objects, never `None` (the code tests `is not None`)
         r.2.world.merged = [(emb cur, emb v)] ∧
-        (match w.mergeOut with
+        (match w.mergeBy mergeFn (emb cur) (emb v) with
          | .inl nv => r.1 = .ret .none ∧ r.2.fld 0 = .dict (putVal (s.map fun p => (.cls p.1, emb p.2)) ty nv)
          | .inr e => r.1 = .exc e ∧ r.2.fld 0 = dictOf emb s)
 
